@@ -396,8 +396,16 @@ func scenarioC15(r *Run) {
 		// [ALREADY_EXISTS, RESOURCE_EXHAUSTED] and must be refused as well; once
 		// there is room again a third attempt goes through.
 		est(false)
-		oldUL := sw.ResizeTable(tTermUL, int64(len(sw.Table(tTermUL))))
-		oldDL := sw.ResizeTable(tTermDL, int64(len(sw.Table(tTermDL))))
+		oldUL, oldDL := sw.ResizeTable(tTermUL, -1), sw.ResizeTable(tTermDL, -1)
+		sw.ResizeTable(tTermUL, oldUL)
+		sw.ResizeTable(tTermDL, oldDL)
+		which := r.Ch.Choose(3, "which-table-full")
+		if which != 1 {
+			sw.ResizeTable(tTermUL, int64(len(sw.Table(tTermUL))))
+		}
+		if which != 0 {
+			sw.ResizeTable(tTermDL, int64(len(sw.Table(tTermDL))))
+		}
 		s1 := g.Session(p, SessShape{NQER: 1 + r.Ch.Choose(2, "nq")})
 		again := func(tag string) bool {
 			s := g.Session(p, SessShape{NQER: len(s1.QERs)})
@@ -431,7 +439,7 @@ func scenarioC15(r *Run) {
 			return res.Accepted
 		}
 		again("first-attempt")
-		if len(r.Violations) == 0 && r.AgentAlive() {
+		for i := 0; i < 2 && len(r.Violations) == 0 && r.AgentAlive(); i++ {
 			again("sent-again")
 		}
 		sw.ResizeTable(tTermUL, oldUL)
